@@ -53,6 +53,9 @@ def run(tier, seed, replay=None):
     g = PlanGen(rng)
     n = 40 if tier == "quick" else 700
     plans = [g.inherent() for _ in range(n)]
+    for p_ in plans:
+        if rng.random() < 0.25:
+            p_.header_qual = "self::"      # `impl<..> self::Wr<..>`: the helper trait is named by the last segment alone (D45)
     evs = PC.evaluate(so, plans)
     extra_progs, extra_meta = [], []
     ok_plans = []
